@@ -89,6 +89,24 @@ V('c06-dt-microsec-begin', 'C06', 'C06.R7',
   (TYP, "microsec_str = self._to_str(microsec, 15, 6)",
         "microsec_str = self._to_str(microsec, 14, 6)"), 'layout')
 
+V('c05-copy-path-via-init', 'C05', 'C05.R7',
+  [(OBJ, "            qualifiers=self.qualifiers)  # setter copies\n\n        # The path is set after",
+        "            qualifiers=self.qualifiers, path=self.path)\n\n        # The path is set after"),
+   (OBJ, "        result.path = self.path  # setter copies deep\n", "")],
+  'interference')
+
+V('c09-embedded-state-not-reset', 'C09', 'C09.R6',
+  ('pywbem/_mof_compiler.py',
+   "        finally:\n            # Force the embedded_iobjects variable to be reset telling the\n"
+   "            # compiler not to insert new objects into this variable\n"
+   "            self.parser.embedded_objects = None\n", ""),
+  'stale-state')
+
+V('c10-propertylist-case-set', 'C10', 'C10.R8',
+  [('pywbem_mock/_providerdispatcher.py',
+    "            property_dict = NocaseDict()\n", "            property_dict = {}\n")],
+  'case')
+
 # ---- C04 ------------------------------------------------------------------
 OPSF = 'pywbem/_cim_operations.py'
 MOCKF = 'pywbem_mock/_wbemconnection_mock.py'
